@@ -152,6 +152,40 @@ def build_driver(name, flavour="plain", extra_src=(), cflags=(), ldflags=()):
     return exe, px
 
 
+def run_driver(cmd, trace, env=None, timeout=900, cwd=None):
+    """Run a conformance driver.  A driver that does not end normally (non-zero exit, killed by a signal, sanitizer
+       report, timeout) leaves a truncated trace; so that the abnormal end is judged by TLC (and not silently
+       accepted as a shorter trace) a Crash event -- which no action of any trace specification matches -- is
+       appended unless the driver's own signal handler already wrote one.  Returns the CompletedProcess-like
+       (returncode, output)."""
+    e = dict(os.environ)
+    e.setdefault("ASAN_OPTIONS", "abort_on_error=1:detect_leaks=1")
+    e.setdefault("UBSAN_OPTIONS", "halt_on_error=1")
+    if env:
+        e.update({k: str(v) for k, v in env.items()})
+    rc, out = None, ""
+    try:
+        p = subprocess.run(cmd, cwd=cwd, env=e, timeout=timeout, stdout=subprocess.PIPE, stderr=subprocess.STDOUT,
+                           text=True, errors="replace")
+        rc, out = p.returncode, p.stdout or ""
+    except subprocess.TimeoutExpired as ex:
+        rc, out = -999, "timeout after %ds\n%s" % (timeout, (ex.stdout or b"")[-2000:] if isinstance(ex.stdout, bytes) else "")
+    if rc != 0:
+        tail = ""
+        try:
+            with open(trace, "rb") as f:
+                f.seek(0, 2)
+                f.seek(max(0, f.tell() - 400))
+                tail = f.read().decode("utf-8", "replace")
+        except OSError:
+            pass
+        if '"e":"Crash"' not in tail:
+            with open(trace, "a") as f:
+                f.write('\n{"e":"Crash","rc":%d}\n' % rc)
+        log("driver ended abnormally (rc=%s): %s\n%s" % (rc, " ".join(map(str, cmd))[:200], out[-1500:]))
+    return rc, out
+
+
 # ------------------------------------------------------------------------------------------
 # TLC
 
